@@ -9,8 +9,8 @@ def suites():
     cli = "keys kc ca=%s psk=1 psk13=1" % RSA[1]
     srv_ec = "keys ks id=%s ca=%s tickets=1" % (EC[0], EC[1])
     cli_ec = "keys kc ca=%s" % EC[1]
-    def add(name, so, co, ks=srv, kc=cli, fam="gcm", dtls=False, resume=False):
-        S.append(dict(name=name, so=so, co=co, ks=ks, kc=kc, fam=fam, dtls=dtls, resume=resume))
+    def add(name, so, co, ks=srv, kc=cli, fam="gcm", dtls=False, resume=False, post=()):
+        S.append(dict(name=name, so=so, co=co, ks=ks, kc=kc, fam=fam, dtls=dtls, resume=resume, post=list(post)))
     add("T12-AES128-GCM", "ver=T12", "ver=T12 suites=0xc02f")
     add("T12-AES256-GCM", "ver=T12", "ver=T12 suites=0xc030")
     add("T12-RSA-AES128-GCM", "ver=T12", "ver=T12 suites=0x9c")
@@ -26,6 +26,11 @@ def suites():
     add("T13-AES256-GCM", "ver=T13", "ver=T13 suites=0x1302")
     add("T13-CHACHA20", "ver=T13", "ver=T13 suites=0x1303", fam="chacha")
     add("T13-AES128-GCM-resumed", "ver=T13", "ver=T13 suites=0x1301 sid=R", resume=True)
+    # RFC 8446 5.4 record padding: to a block size from the first record on (handshake records are padded too), a fixed
+    # amount per record, and block padding switched on for a live session - more than 255 zero bytes in most records
+    add("T13-AES128-GCM-padblock", "ver=T13 padblock=512", "ver=T13 suites=0x1301 padblock=1024")
+    add("T13-CHACHA20-padlen", "ver=T13 padlen=300", "ver=T13 suites=0x1303 padlen=700", fam="chacha")
+    add("T13-AES256-GCM-padlate", "ver=T13", "ver=T13 suites=0x1302", post=["pad c0 4096", "pad s0 2048"])
     add("T12-AES128-GCM-ticket", "ver=T12", "ver=T12 suites=0xc02f sid=R tick=1", resume=True)
     add("D12-AES128-GCM", "ver=D12", "ver=D12 suites=0xc02f", dtls=True)
     add("D12-AES128-CBC-SHA256", "ver=D12", "ver=D12 suites=0x3c", fam="cbc", dtls=True)
@@ -40,6 +45,7 @@ def prelude(s):
         L += ["new s9 server keys=ks %s" % s["so"], "new c9 client keys=kc %s" % s["co"], "link c9 s9", "pump c9 s9 max=60",
               "send c9 3", "pump c9 s9 max=5", "close c9", "pump c9 s9 max=5", "del c9", "del s9"]
     L += ["new s0 server keys=ks %s" % s["so"], "new c0 client keys=kc %s" % s["co"], "link c0 s0", "pump c0 s0 max=60"]
+    L += s.get("post", [])
     return L
 
 def edit_ops(rnd, nq, hist, tier):
@@ -71,6 +77,8 @@ def episodes(tier, seed, purpose):
                     lens[rnd.randrange(len(lens))] = rnd.choice(LENS[8:])
                 if s["dtls"]:
                     lens = [min(x, 1000) for x in lens]
+                if "padlen" in s["name"]:
+                    lens = [min(x, 15000) for x in lens]    # a full-size fragment plus a fixed 700 bytes of padding is refused by the encoder
                 L = prelude(s)
                 L.append("autoflush %s 1" % X)
                 pre = rnd.randrange(0, 3)
